@@ -125,7 +125,87 @@ class C05(Prop):
             res.violate("C05:example-cable-count-differs", "%s: cell #%s: file implies %s cables, netlist "
                         "has %s" % (case["example"], k, want[k] if k is not None else len(want),
                                     have[k] if k is not None else len(have)))
+        # per cell: every net as the set of its endpoints (instance identifier, port identifier,
+        # member index), read independently from the s-expressions
+        want_n = nets_per_cell(text)
+        have_n = []
+        for L in nl.libraries:
+            for D in L.definitions:
+                nets = []
+                for C in D.cables:
+                    for w in C.wires:
+                        ends = []
+                        for p in w.pins:
+                            ip = p.inner_pin if isinstance(p, sdn.OuterPin) else p
+                            ends.append(((p.instance["EDIF.identifier"].lower()
+                                          if isinstance(p, sdn.OuterPin) else ""),
+                                         ip.port["EDIF.identifier"].lower(), ip.port.pins.index(ip)))
+                        if ends:
+                            nets.append(sorted(ends))
+                have_n.append(sorted(nets))
+        if want_n != have_n:
+            k = next((i for i, (a, b) in enumerate(zip(want_n, have_n)) if a != b), None)
+            det = ""
+            if k is not None:
+                only_w = [n for n in want_n[k] if n not in have_n[k]][:2]
+                only_h = [n for n in have_n[k] if n not in want_n[k]][:2]
+                det = "only in file %r; only in netlist %r" % (only_w, only_h)
+            res.violate("C05:example-nets-differ", "%s: cell #%s: %s" % (case["example"], k, det))
         return res
+
+
+def nets_per_cell(text):
+    """for every cell in file order: sorted list of nets, each the sorted list of its endpoints
+    (instanceRef identifier or '', port identifier, member index or 0), all lower-cased"""
+    out = []
+
+    def kw(x):
+        return isinstance(x, list) and x and isinstance(x[0], str) and x[0].lower()
+
+    def ident(x):
+        if isinstance(x, list) and kw(x) == "rename":
+            return x[1].lower()
+        return x.lower()
+
+    def walk(node):
+        if not isinstance(node, list):
+            return
+        if kw(node) == "cell":
+            nets = []
+            for view in node:
+                if kw(view) != "view":
+                    continue
+                for cont in view:
+                    if kw(cont) != "contents":
+                        continue
+                    for net in cont:
+                        if kw(net) != "net":
+                            continue
+                        ends = []
+                        for j in net:
+                            if kw(j) != "joined":
+                                continue
+                            for pr in j[1:]:
+                                if kw(pr) != "portref":
+                                    continue
+                                tgt = pr[1]
+                                if isinstance(tgt, list) and kw(tgt) == "member":
+                                    port, idx = ident(tgt[1]), int(tgt[2])
+                                else:
+                                    port, idx = ident(tgt), 0
+                                inst = ""
+                                for x in pr[2:]:
+                                    if kw(x) == "instanceref":
+                                        inst = ident(x[1])
+                                ends.append((inst, port, idx))
+                        if ends:
+                            nets.append(sorted(ends))
+            out.append(sorted(nets))
+            return
+        for x in node:
+            walk(x)
+    walk(sexp(text))
+    return out
 
 
 def classify(d):
